@@ -12,6 +12,7 @@ RULE = ('case = (MAX_QUEUE_SIZE, flow control, watermark, batch size, dynamic ro
         'are decoded and checked: no duplicates, arrival order for normal datapoints, per-destination conservation '
         '(accepted = written + queued + re-routed), queue bound, drops only at the hard limit and all counted, sent counter; '
         're-routing is observed at destinationDown; after stop a destination may be closed only with an empty queue; '
+        'after a sequence a deterministic epilogue (all up, unpaused, timers fired) must leave every queue empty; '
         'exhaustive sequences up to length L from several prefixes for one destination, seeded random sequences of length '
         '30-200 for 1-3 destinations; non-trivial = sequence with >=1 connection event and >=2 arrivals; distinct = sequences')
 EXHAUSTIVE = {'quick': True, 'thorough': True}
@@ -99,6 +100,19 @@ def run_config(cfg, res, relay_oracle=None, extra_weights=None):
     res.count('invariant_evaluations', len(s.log))
     if relay_oracle:
       relay_oracle(s, v, cfg, res)
+    elif not s.stopped and not s.violations:
+      # bounded progress: once every destination is connected, unpaused and all timers have fired, whatever was accepted
+      # has been written ("written exactly once" includes "written")
+      if s.quiesce():
+        res.count('quiescence_evaluations')
+        for i, d in enumerate(s.dests):
+          f = s.factory(i)
+          c = s.connector(i)
+          if f is not None and c is not None and c.state == 'connected' and len(f.queue) and s.manager.router.hasDestination(d):
+            s.viol('progress/queue-stuck', '%s is connected and unpaused, no timer is pending, but %d accepted datapoints are still queued: %r' % (
+              s._fname(d), len(f.queue), [int(x[1][0]) for x in f.queue][:8]))
+      else:
+        res.count('quiescence_not_reached')
     report(s, v, events)
     nconn = sum(1 for e, _ in s.log if e.startswith('conn'))
     res.case(repr((sorted(v.items()), s.log)), nontrivial=(nconn >= 1 and s.counters['arrivals'] + s.counters['hp_arrivals'] >= 2))
